@@ -6000,7 +6000,8 @@ class Parser:
             expression = this.expression
 
             if expression:
-                for arg in self.SET_OP_MODIFIERS:
+                # Sorted: iterating the set directly makes the order of the node's args depend on the hash seed
+                for arg in sorted(self.SET_OP_MODIFIERS):
                     expr = expression.args.get(arg)
                     if expr:
                         this.set(arg, expr.pop())
